@@ -883,6 +883,10 @@ class Sym:
                 if a not in uniq:
                     uniq.append(a)
             return uniq[0] if len(uniq) == 1 else ("phi", tuple(uniq))
+        inner = strip_sym(s)
+        if isinstance(inner, tuple) and inner and inner[0] == "agg" and inner[1] in ("tuple", "closure") and s[0] != "agg":
+            # field of a tuple / closure environment reached through references or a capture
+            s = inner
         if s[0] == "agg" and s[3] is not None:
             # field of a locally built aggregate
             fields = s[4]
